@@ -35,6 +35,9 @@ CHECKS = {
  "C12": dict(cat="model_checking", design="DESIGN.md section 5 C12",
    technique="TLA+ spec Pipeline.tla (EnvMatchesHeader, OutIsFunctionOfInput model-checked, env-leak deviation model refuted); multi-module executions of the real compiler recorded through cfg(rasn_verif) hooks and validated against the spec; per-module / per-definition comparison events judged by the same trace specification",
    text="At design level TLC checks over all orders of module entry that every definition is generated under its own module's environment. For the code, Notation module sets of 2..3 modules with differing defaults, imports and qualified references are compiled as a whole, in reverse order, and module by module with only the import closure; the hook trace of the whole compilation must be a behaviour of Pipeline.tla (each enter_module event must carry the module's own header environment), per-definition bindings must be equal across the compilations, use declarations must be exactly the imported symbols, and qualified references must resolve to super::<module>::<Type>."),
+ "C11": dict(cat="model_checking", design="DESIGN.md section 5 C11",
+   technique="TLA+ spec Pipeline.tla (OutIsFunctionOfInput model-checked over all hand-over orders and step interleavings); the same definition sets compiled by the real compiler under permutation, repetition, threads, concurrency and history; the recorded results validated by TLC with a stateful trace specification (Trace_C11.tla)",
+   text="Design level: TLC checks on the bounded pipeline model that the output is a function of the input for every order of sources and every interleaving of generation steps. Code level: Notation module sets and real-world modules are each compiled many times -- repeated, sources/modules/assignments permuted (all permutations for <=4 units), on another thread, after another compilation, 2..8 times concurrently -- and TLC validates that all compilations of one definition set return the same status, byte-identical bindings and the same multiset of warnings."),
 }
 
 NOT_BUILT = "check not built yet (DESIGN.md section 13 build order)"
